@@ -1,4 +1,5 @@
 import WindVerif.Proofs.PoolLive
+import WindVerif.Proofs.PoolJoinTimeout
 /-!
 # C02 — imap and imap_unordered always terminate on finite input (no deadlock)
 
@@ -15,7 +16,16 @@ for a while; flow control (`run_event` cleared while the reorder buffer is full)
 * `exit_unblocked`: D19 repaired: the concrete 56-step schedule of a factory pool with 2 workers, quota 1, work-queue
   bound 1 that used to end with the caller blocked in `__exit__` for good (second stop order on a full queue, every worker
   gone) goes on, with one more step of the consumer, to the caller being done.
-* `exit_skip_all_exited`: the loop of stop orders is left early (full queue) only when every worker ever created has exited.
+* `exit_skip_all_exited`: the loop of stop orders is left early (full queue) only when every worker ever created has exited
+  (no join timeout); `exit_skip_all_gone`: for every configuration.
+
+A finite `join_timeout` (`Cfg.joinTimeout`: the joins of the replace thread and of `__exit__` return after the timeout whether
+the worker has exited or not; a retired worker's `end()` is a step of its own): `imap_no_deadlock`, `imap_terminates`,
+`imap_maximal_final` hold for these configurations too (same statements; `*_joinTimeout` name the corollaries).
+`exit_returns_with_running_worker` / `exit_skip_running_worker`: witnesses that "every worker has exited when `__exit__`
+returns" needs `join_timeout=None` — hence the hypothesis `cfg.joinTimeout = false` ADDED to `exit_skip_all_exited` (and to
+`exit_joins_all` of C03/C04).  `imap_maximal_all_exited` / `eventually_all_exited`: what remains true with a timeout — every
+maximal execution ends with the caller finished and every worker exited.
 -/
 namespace WindVerif.C02
 open WindVerif.Pool
@@ -42,14 +52,71 @@ theorem exit_unblocked : ∃ sched s, run (init d19Cfg) sched = some s ∧ s.cpc
 
 /-- the loop of stop orders is left early only when nobody is left: a step of the consumer at a stop order on a full work
 queue ends `__exit__`, and every worker ever created has exited -/
-theorem exit_skip_all_exited (cfg : Cfg) (s s' : St) (h : Reach cfg s) (i : Nat) (hpc : s.cpc = .exitPut i)
-    (hfull : capFull s.cfg.workCap s.workQ = true) (hs : step s .c = some s') : s'.cpc = .done ∧ AllExited s' := by
+theorem exit_skip_all_exited (cfg : Cfg) (hjt : cfg.joinTimeout = false) (s s' : St) (h : Reach cfg s) (i : Nat)
+    (hpc : s.cpc = .exitPut i) (hfull : capFull s.cfg.workCap s.workQ = true) (hs : step s .c = some s') :
+    s'.cpc = .done ∧ AllExited s' := by
   first | exact WindVerif.Pool.exit_skip_all_exited .. | (apply WindVerif.Pool.exit_skip_all_exited <;> assumption)
+
+/-- the same for EVERY configuration (finite join timeout included): the loop of stop orders is left early only when every
+listed worker has an exit code; every other worker ever created has exited or — only with a join timeout — is an unlisted
+(replaced) worker with nothing but its `end()` left to run -/
+theorem exit_skip_all_gone (cfg : Cfg) (s s' : St) (h : Reach cfg s) (i : Nat) (hpc : s.cpc = .exitPut i)
+    (hfull : capFull s.cfg.workCap s.workQ = true) (hs : step s .c = some s') :
+    s'.cpc = .done ∧ (∀ wid ∈ s'.procs, workerExited s' wid = true) ∧
+    ∀ w ∈ s'.workers, w.pc = .exited ∨ (w.pc = .ending ∧ w.wid ∉ s'.procs ∧ cfg.joinTimeout = true) := by
+  first | exact WindVerif.Pool.exit_skip_all_gone .. | (apply WindVerif.Pool.exit_skip_all_gone <;> assumption)
+
+/-- witness: with a finite join timeout `exit_skip_all_exited` without its hypothesis is false — the consumer leaves the
+loop of stop orders on a full queue while a replaced worker is still inside `end()` -/
+theorem exit_skip_running_worker :
+    ∃ cfg sched s s' i, cfg.joinTimeout = true ∧ run (init cfg) sched = some s ∧ s.cpc = .exitPut i ∧
+      capFull s.cfg.workCap s.workQ = true ∧ step s .c = some s' ∧ s'.cpc = .done ∧ ∃ w ∈ s'.workers, w.pc = .ending := by
+  first | exact WindVerif.Pool.exit_skip_running_worker .. | (apply WindVerif.Pool.exit_skip_running_worker <;> assumption)
+
+/-- witness: with a finite join timeout there is a reachable state in which the caller has left the context
+(`cpc = .done`) while a worker has not exited — "all workers have exited when `__exit__` returns" needs `join_timeout=None` -/
+theorem exit_returns_with_running_worker :
+    ∃ cfg sched s, cfg.joinTimeout = true ∧ run (init cfg) sched = some s ∧ s.cpc = .done ∧
+      ∃ w ∈ s.workers, w.pc ≠ .exited := by
+  first | exact WindVerif.Pool.exit_returns_with_running_worker .. | (apply WindVerif.Pool.exit_returns_with_running_worker <;> assumption)
+
+/-- timed joins: no deadlock (corollary of `imap_no_deadlock`, which holds for every configuration) -/
+theorem imap_no_deadlock_joinTimeout (cfg : Cfg) (hjt : cfg.joinTimeout = true) (hw : WellCfg cfg) (hf : NoFaults cfg)
+    (s : St) (h : Reach cfg s) (hnd : s.cpc ≠ .done) : ∃ t, (step s t).isSome := by
+  first | exact WindVerif.Pool.imap_no_deadlock_joinTimeout .. | (apply WindVerif.Pool.imap_no_deadlock_joinTimeout <;> assumption)
+
+/-- timed joins: termination (corollary of `imap_terminates`) -/
+theorem imap_terminates_joinTimeout (cfg : Cfg) (hjt : cfg.joinTimeout = true) (hw : WellCfg cfg) (hf : NoFaults cfg) :
+    ∃ bound, ∀ sched s, run (init cfg) sched = some s → sched.length ≤ bound := by
+  first | exact WindVerif.Pool.imap_terminates_joinTimeout .. | (apply WindVerif.Pool.imap_terminates_joinTimeout <;> assumption)
+
+/-- the strongest variant of "every worker has exited when `__exit__` returns" that holds with a finite join timeout too:
+every maximal execution ends with the caller finished AND every worker ever created exited (a retired worker inside
+`end()` included): every started worker eventually exits -/
+theorem imap_maximal_all_exited (cfg : Cfg) (hw : WellCfg cfg) (hf : NoFaults cfg) (sched : List Tid) (s : St)
+    (h : run (init cfg) sched = some s) (hmax : ∀ t, step s t = none) : s.cpc = .done ∧ AllExited s := by
+  first | exact WindVerif.Pool.imap_maximal_all_exited .. | (apply WindVerif.Pool.imap_maximal_all_exited <;> assumption)
+
+/-- … and from every reachable state such an end can be reached -/
+theorem eventually_all_exited (cfg : Cfg) (hw : WellCfg cfg) (hf : NoFaults cfg) (s : St) (h : Reach cfg s) :
+    ∃ sched s', run s sched = some s' ∧ s'.cpc = .done ∧ AllExited s' := by
+  first | exact WindVerif.Pool.eventually_all_exited .. | (apply WindVerif.Pool.eventually_all_exited <;> assumption)
+
+/-- non-vacuity: the configurations with a join timeout used above are well-formed and fault-free; `d19Cfg` has none -/
+example : jtCfg.joinTimeout = true ∧ WellCfg jtCfg ∧ NoFaults jtCfg ∧ jtD19Cfg.joinTimeout = true ∧ WellCfg jtD19Cfg ∧
+    NoFaults jtD19Cfg ∧ d19Cfg.joinTimeout = false := by
+  unfold WellCfg NoFaults jtCfg jtD19Cfg d19Cfg; decide
+
+/-- non-vacuity of `imap_maximal_all_exited`: the run of `exit_returns_with_running_worker` is not maximal (worker 0 can
+still run its `end()`); one more step of worker 0 and nobody can move, the caller is done and both workers have exited -/
+example : (run (init jtCfg) (jtSchedExit ++ [.w 0])).map
+    (fun s => (decide (s.cpc = .done), (enabledTids s).length, s.workers.map (fun w => (w.wid, w.pc)))) =
+    some (true, 0, [(0, .exited), (1, .exited)]) := by decide +kernel
 
 /-- non-vacuity: the default configuration (work-queue bound = number of workers) satisfies the hypotheses, and so does the
 configuration of the former D19 (work-queue bound below the number of workers of a factory pool) -/
-example : WellCfg ⟨2, some 2, none, false, none, false, [⟨3, true⟩], [], [], false⟩ ∧ WellCfg d19Cfg ∧
-    NoFaults ⟨2, some 2, none, false, none, false, [⟨3, true⟩], [], [], false⟩ ∧ NoFaults d19Cfg := by
+example : WellCfg ⟨2, some 2, none, false, none, false, [⟨3, true⟩], [], [], false, false⟩ ∧ WellCfg d19Cfg ∧
+    NoFaults ⟨2, some 2, none, false, none, false, [⟨3, true⟩], [], [], false, false⟩ ∧ NoFaults d19Cfg := by
   unfold WellCfg NoFaults d19Cfg; decide
 
 end WindVerif.C02
